@@ -85,6 +85,8 @@ var opArity = map[string]int{
 	"dbuf":    2,  // r a
 	"dimg":    2,  // r a
 	"rbuf":    6,  // r size align reqTypeBits requiresDed prefersDed
+	"xbuf":    4,  // r a offset size        CreateAliasingBufferWithOffset on allocation a (offset < -1000000: CreateAliasingBuffer)
+	"ximg":    5,  // r a offset width linear CreateAliasingImageWithOffset
 	"rimg":    7,  // r tiling size align reqTypeBits requiresDed prefersDed
 	"rdres":   1,  // r
 	"abuf":    8,  // a r usage flags required preferred createTypeBits pool
